@@ -65,6 +65,9 @@ pub enum FaultKind {
     Rendezvous,
     ExtraSteps,
     Undeclared,
+    /// async scenarios: the system's `setup` panics during the `call`-th Setup operation (the
+    /// caller catches it and goes on using the dispatcher)
+    SetupPanic,
 }
 
 #[derive(Clone, Debug, Serialize, Deserialize, PartialEq)]
@@ -581,7 +584,8 @@ fn gen_regs(rng: &mut Rng, cfg: &GenCfg, k: &Knobs, resmap: &[RKey], budget: &mu
         if rng.chance(1, 7) {
             // library system data: Read<T> / Write<T> / (Read<T>, Write<U>) / ()
             typed = true;
-            expect = false;
+            // one in three of them in the optional forms (Option<Read<T>> / Option<Write<T>>)
+            expect = rng.chance(1, 3);
             reads.clear();
             writes.clear();
             if !okres.is_empty() {
